@@ -1,6 +1,6 @@
 """C06 — containers keep structure: element correspondence and order, arity, None-iff-null,
 entry-wise set/map construction, CS delegation.  Rules on the library's container impls."""
-from analysis import View, strip_refs, erase_generics, term_mentions
+from analysis import term_calls, View, strip_refs, erase_generics, term_mentions
 from sites import BodySites, npath
 from loc import canon, item_of, next_kind, fmt, loop_of, call_name
 from lin import Finding
@@ -39,17 +39,50 @@ def ok_assignments(view):
                 elif rv["k"] == "agg" and rv.get("path") == "std::result::Result" and rv["variant"] == "Err":
                     pass
                 else:
-                    out.append(("other", bb, view.origin_rv(rv, bb), None))
+                    term = view.origin_rv(rv, bb)
+                    al = view.alts(term)
+                    if al and all(a[0] == "agg" and a[1] == "adt" and a[3] == "std::result::Result" for a in al):
+                        # `_0 = move r` where r was built as Ok(..) / Err(..) in several arms (e.g. an inlined helper)
+                        for a in sorted(al, key=repr):
+                            if a[4] == "Ok" and a[2]:
+                                out.append(("ok", bb, a[2][0], None))
+                        continue
+                    out.append(("other", bb, term, None))
         t = view.blocks[bb]["term"]
         if t["k"] == "call" and t["dest"]["l"] == 0 and not t["dest"]["p"]:
             out.append(("call", bb, view.origin_call(bb), None))
     return out
 
 
+def move_class(view, local):
+    """locals that hold the same object as `local` at some time: connected by whole moves (`x = move y`)"""
+    cls = {local}
+    changed = True
+    while changed:
+        changed = False
+        for bb in view.reach:
+            for st in view.blocks[bb]["stmts"]:
+                if st["k"] != "assign" or st["place"]["p"]:
+                    continue
+                rv = st["rv"]
+                if rv["k"] == "use" and rv["op"]["k"] in ("move", "copy") and not rv["op"]["place"]["p"]:
+                    a, b = st["place"]["l"], rv["op"]["place"]["l"]
+                    if (a in cls) != (b in cls) and a != 0 and b != 0:
+                        # only single-purpose temporaries / parameters of inlined helpers join the class
+                        other = a if b in cls else b
+                        if len(view.whole_defs(other)) == 1 or other == b:
+                            cls.add(other)
+                            changed = True
+    return cls
+
+
 def mut_borrow_consumers(view, local):
-    """calls that receive `&mut local` (through reborrows): [(bb, callee, arg index)] ; plus 'escape' entries"""
+    """calls that receive `&mut local` (through reborrows, moves of the borrow, and tuples of arguments that are
+    taken apart again): [(bb, callee, arg index)]"""
     res = []
     refs = set()
+    tuple_refs = {}   # tuple local -> {field index}
+    locals_ = move_class(view, local) if isinstance(local, int) else set(local)
     # locals that are &mut local or reborrows of them
     changed = True
     while changed:
@@ -62,7 +95,7 @@ def mut_borrow_consumers(view, local):
                 if rv["k"] == "ref" and rv["bk"] == "mut":
                     pl = rv["place"]
                     base = pl["l"]
-                    if (base == local and not any(e["k"] == "deref" for e in pl["p"])) or \
+                    if (base in locals_ and not any(e["k"] == "deref" for e in pl["p"])) or \
                             (base in refs and pl["p"] and pl["p"][0]["k"] == "deref"):
                         if st["place"]["l"] not in refs:
                             refs.add(st["place"]["l"])
@@ -71,11 +104,23 @@ def mut_borrow_consumers(view, local):
                     if st["place"]["l"] not in refs:
                         refs.add(st["place"]["l"])
                         changed = True
+                if rv["k"] == "agg" and rv.get("ak") == "tuple":
+                    for i, o in enumerate(rv["ops"]):
+                        if o["k"] in ("move", "copy") and o["place"]["l"] in refs and not o["place"]["p"]:
+                            if i not in tuple_refs.setdefault(st["place"]["l"], set()):
+                                tuple_refs[st["place"]["l"]].add(i)
+                                changed = True
+                if rv["k"] == "use" and rv["op"]["k"] in ("move", "copy") and rv["op"]["place"]["l"] in tuple_refs:
+                    pp = rv["op"]["place"]["p"]
+                    if len(pp) == 1 and pp[0]["k"] == "field" and pp[0]["i"] in tuple_refs[rv["op"]["place"]["l"]]:
+                        if st["place"]["l"] not in refs:
+                            refs.add(st["place"]["l"])
+                            changed = True
     for bb in sorted(view.reach):
         t = view.blocks[bb]["term"]
         if t["k"] == "call":
             for i, a in enumerate(t["args"]):
-                if a["k"] in ("move", "copy") and a["place"]["l"] in refs and not a["place"]["p"]:
+                if a["k"] in ("move", "copy") and not a["place"]["p"] and (a["place"]["l"] in refs or a["place"]["l"] in tuple_refs):
                     res.append((bb, view.callee(bb), i))
     return res
 
@@ -252,21 +297,11 @@ def c_seq(view, bs):
     for _, bb, term, op in oks:
         ob += 1
         res_local = None
-        if op["k"] in ("move", "copy"):
-            # follow moves back to the collection local
-            l = op["place"]["l"]
-            seen = 0
-            while seen < 6:
-                seen += 1
-                if l in colls:
-                    res_local = l
-                    break
-                wd = view.whole_defs(l)
-                if len(wd) == 1 and wd[0][0] == "stmt" and wd[0][3]["rv"]["k"] == "use" and wd[0][3]["rv"]["op"]["k"] in ("move", "copy") \
-                        and not wd[0][3]["rv"]["op"]["place"]["p"]:
-                    l = wd[0][3]["rv"]["op"]["place"]["l"]
-                    continue
-                break
+        # the Ok payload is (a move of) the collection local
+        for c_l, (c_bb, _base) in colls.items():
+            al = view.alts(term)
+            if al and all(a == ("multi", c_l) or (a[0] == "call" and a[1] == c_bb) or (a[0] == "multi" and a[1] in move_class(view, c_l)) for a in al):
+                res_local = c_l
         if res_local is None:
             out.append(finding("C06.SEQ", view, "the Ok result is not the collection that was filled element by element (it is transformed before being returned)", bb, fmt(term)))
             continue
@@ -423,17 +458,14 @@ def c_tuple(view, bs):
                 k, b.crate.tys(ch["self_ty"]), b.crate.tys(ts[k])), ch["bb"]))
         # field k = unwrap(local assigned Some(Ok payload of child k))
         fk = canon(view, term[2][k])
-        okk = False
-        if fk[0] == "call" and call_name(view, fk) == "std::option::Option::unwrap" and fk[3]:
-            src = fk[3][0]
-            if src[0] == "multi":
-                for d in view.whole_defs(src[1]):
-                    if d[0] == "stmt":
-                        o = canon(view, view.origin_rv(d[3]["rv"], d[1]))
-                        if o[0] == "agg" and o[1] == "adt" and o[4] == "Some" and o[2]:
-                            p = o[2][0]
-                            if p[0] == "field" and p[2] == "Ok" and p[1][0] == "call" and p[1][1] == ch["bb"]:
-                                okk = True
+        # every value that can reach field k is the Ok payload of child k (however it is carried there:
+        # Some(..)/unwrap, a helper's Ok(Some(..)) taken apart by `?`, plain temporaries)
+        srcs = view.alts(term[2][k])
+        okk = bool(srcs)
+        for p in srcs:
+            p = canon(view, p)
+            if not (p[0] == "field" and p[2] == "Ok" and isinstance(p[1], tuple) and p[1][0] == "call" and p[1][1] == ch["bb"]):
+                okk = False
         if not okk:
             out.append(finding("C06.ARITY", view, "field #%d of the result is not the value deserialised from element #%d" % (k, k), oks[0][1], fmt(fk)))
     return out, ob
@@ -574,11 +606,9 @@ def c_option(view, bs):
             is_none = t[0] == "agg" and t[1] == "adt" and t[3] == "std::option::Option" and t[4] == "None"
             is_some_of_child = False
             if t[0] == "agg" and t[1] == "adt" and t[3] == "std::option::Option" and t[4] == "Some" and t[2]:
-                p0 = t[2][0]
-                if p0[0] == "field" and p0[2] == "Ok" and p0[1][0] == "call":
-                    chs = [ch for ch in bs.children if ch["bb"] == p0[1][1]]
-                    if chs and chs[0]["delegating"] and canon(view, chs[0]["loc"]) == ("param", 2) and not (bb in null_region and _only_via(view, bb, null_t)):
-                        is_some_of_child = True   # `match T::deserialize(value, location) { Ok(x) => Ok(Some(x)), Err(e) => Err(e) }`
+                ch0 = child_ok_payload(view, bs, t[2][0])
+                if ch0 is not None and canon(view, ch0["loc"]) == ("param", 2) and not (bb in null_region and _only_via(view, bb, null_t)):
+                    is_some_of_child = True   # `match T::deserialize(value, location) { Ok(x) => Ok(Some(x)), Err(e) => Err(e) }`, or with `?`
             if is_none:
                 if bb in other_region and bb not in null_region or (bb in other_region and bb in null_region and not _only_via(view, bb, null_t)):
                     out.append(finding("C06.OPT", view, "None is produced for an input that is not null", bb))
@@ -597,6 +627,8 @@ def c_option(view, bs):
                     and canon(view, chs[0]["loc"]) == ("param", 2)
                 if okc and bb in null_region and _only_via(view, bb, null_t):
                     okc = False
+            if not okc and passes_child_error(view, bs, bb, term) and not (bb in null_region and _only_via(view, bb, null_t)):
+                okc = True
             if not okc:
                 out.append(finding("C06.OPT", view, "a non-null input is not simply deferred to the content type and wrapped in Some", bb, fmt(t)))
         else:
@@ -613,6 +645,35 @@ def _only_via(view, bb, via):
     return view.dominates(via, bb)
 
 
+def child_ok_payload(view, bs, term, delegating=True):
+    """the child call whose Ok payload `term` is on every alternative (through temporaries, `?`, Some/unwrap pairs), or None"""
+    al = view.alts(term)
+    found = None
+    if not al:
+        return None
+    for a in al:
+        a = canon(view, a)
+        if not (a[0] == "field" and a[2] == "Ok" and isinstance(a[1], tuple) and a[1][0] == "call"):
+            return None
+        chs = [ch for ch in bs.children if ch["bb"] == a[1][1]]
+        if not chs or (delegating and not chs[0]["delegating"]):
+            return None
+        if found is not None and found["bb"] != chs[0]["bb"]:
+            return None
+        found = chs[0]
+    return found
+
+
+def passes_child_error(view, bs, bb, term):
+    """`_0 = from_residual(..)` of a child's `?`: only hands the child's own error on"""
+    c = view.callee(bb)
+    if c is None or c.fn is None or c.name != "from_residual":
+        return False
+    child_bbs = set(ch["bb"] for ch in bs.children)
+    calls = [x for x in term_calls(term) if x[1] != bb]
+    return bool(calls) and all(x[1] in child_bbs or (x[2] and "std::ops::Try>::branch" in x[2]) for x in calls) and any(x[1] in child_bbs for x in calls)
+
+
 def c_box(view, bs):
     out = []
     ob = 1
@@ -626,6 +687,16 @@ def c_box(view, bs):
                 chs = [ch for ch in bs.children if src[0] == "call" and ch["bb"] == src[1]]
                 if chs and chs[0]["delegating"] and f[0] == "fnconst" and f[1].startswith("std::boxed::Box") and f[1].endswith("::new") \
                         and canon(view, chs[0]["loc"]) == ("param", 2):
+                    good = True
+                    continue
+            if passes_child_error(view, bs, bb, term):
+                continue
+        if kind == "ok":
+            # `Ok(Box::new(content))` with content = the delegating child's Ok payload
+            t = canon(view, term)
+            if t[0] == "call" and (call_name(view, t) or "").startswith("std::boxed::Box") and (call_name(view, t) or "").endswith("::new") and t[3]:
+                ch = child_ok_payload(view, bs, t[3][0])
+                if ch is not None and canon(view, ch["loc"]) == ("param", 2):
                     good = True
                     continue
         out.append(finding("C06.OPT", view, "Box<T> is not a pure delegation to T wrapped in Box::new", bb, fmt(term)))
